@@ -72,8 +72,9 @@ def run_case(cs):
     rng.shuffle(order)
     for s in order:
         drive.run("create", [os.path.join(root, s), "-h", rng.choice(world.FORMATS)])
-    for g in range(rng.randint(1, 5)):
-        r = drive.run("create", [root] + world.fmt_args(world.gen_formats(rng)[:2]))
+    long_history = rng.random() < 0.2
+    for g in range(rng.randint(10, 12) if long_history else rng.randint(1, 5)):
+        r = drive.run("create", [root] + world.fmt_args(world.gen_formats(rng)[:2] if not long_history else ["md5"]))
         if r.exit != 0:
             cs.skip("setup-create-failed")
             return
@@ -89,8 +90,8 @@ def run_case(cs):
     for h in hists:
         ms = world.manifests(root, h)
         for i, name in enumerate(ms):
-            pos = "first" if i == 0 else "last" if i == len(ms) - 1 else "middle"
-            kinds = EDITS if cs.tier == "thorough" else rng.sample(EDITS, 3)
+            pos = "first" if i == 0 else "last" if i == len(ms) - 1 else "gen>=10" if i >= 9 else "middle"
+            kinds = EDITS if cs.tier == "thorough" and not long_history else rng.sample(EDITS, 1 if long_history and 0 < i < len(ms) - 1 and i != 9 else 3)
             for k in kinds:
                 faults.append((h, name, k, pos if len(ms) > 1 else "only"))
         faults.append((h, "ascmhl_chain.xml", "remove", "chain"))
